@@ -69,7 +69,8 @@ IsPlainDict(s, n) == s.kind[n] \in {"dict", "tdict"}
 IsObj(s, n) == s.kind[n] \in {"obj", "objb", "objc"}
 PH == 150                        \* a search-space placeholder leaf (pg.oneof)
 RF == 160                        \* an explicit reference leaf (pg.Ref to a shared non-symbolic object)
-Opaque == {PH, RF}               \* leaves that are symbolic objects of their own: every write stores a NEW object
+TB == 170                        \* a tuple leaf holding a symbolic dict inside a nested tuple (a deep clone must copy it)
+Opaque == {PH, RF, TB}           \* leaves that are objects of their own: every write stores a NEW object
 \* test classes: A(x = None, y = None); B(z required -- no default, w = None), created with B.partial();
 \* C(m : A = A(), w = None): an object-typed field with a default object (field m always holds an A node and is never written)
 DefaultOf(k, key) == IF k = "objb" /\ key = 1 THEN MISSING ELSE PNONE
